@@ -522,82 +522,3 @@ Proof.
   repeat split; auto using beq_true.
 Qed.
 
-(* ================================================================ 5. refutations by witness (AdfWalk.wit_* files) *)
-Definition on_open {P : Type} (bs : bytes) (k : fstate -> ptr -> P) (d : P) : P :=
-  match database_open bs with Ok (f, r) => k f r | _ => d end.
-
-(* the valid witness: opens, both children are found, the walk is clean *)
-Lemma wit_valid_ok :
-  on_open wit_valid (fun f r => check_4_child_name f r [66] = Ok (Some (0, 1130)) /\
-                                 get_node_id LINK_FUEL f r [66] = Ok (0, 1130)) False /\
-  forallb (fun e => match e with EvG r => clean r | EvN _ r => clean r | EvFuel => false | _ => true end)
-          (walk_events (walk 10 wit_valid)) = true.
-Proof. vm_compute. repeat split; reflexivity. Qed.
-
-(* section 6 #12: same file, header field entries_for_sub_nodes 00000008 -> 00000002 *)
-Lemma wit_oobw_is_one_field : wit_oobw = firstn 342 wit_valid ++ hexenc 8 2 ++ skipn 350 wit_valid.
-Proof. vm_compute. reflexivity. Qed.
-
-Theorem oob_write_refuted :
-  exists bs, on_open bs (fun f r => check_4_child_name f r [66] = OOBW 1 /\
-                                    get_node_id LINK_FUEL f r [66] = OOBW 1) False.
-Proof. exists wit_oobw. vm_compute. split; reflexivity. Qed.
-
-Theorem oob_read_refuted :
-  exists bs, on_open bs (fun f r => check_4_child_name f r [66] = OOBR 1) False.
-Proof. exists wit_oobr. vm_compute. reflexivity. Qed.
-
-Theorem link_buffer_refuted :
-  exists bs, on_open bs (fun f r => get_link_path f (0, 884) 5200 5200 = OOBW 3 /\
-                                    match chase_link f (0, 884) with OOBW 3 => True | _ => False end) False.
-Proof. exists wit_biglink. vm_compute. split; [reflexivity|exact I]. Qed.
-
-Theorem link_recursion_refuted :
-  exists bs, on_open bs (fun f r => exists lid, get_node_id LINK_FUEL f r [76] = Ok lid /\
-                                               match chase_link f lid with OutOfFuel => True | _ => False end) False.
-Proof. exists wit_linkrec. vm_compute. exists (0, 884). split; [reflexivity|exact I]. Qed.
-
-Theorem abort_refuted : exists bs, database_open bs = Abort.
-Proof. exists wit_abort. vm_compute. reflexivity. Qed.
-
-Theorem tagscan_refuted : exists bs, on_open bs (fun f r => match read_node_header f r with OOBR 5 => True | _ => False end) False.
-Proof. exists wit_tagscan. vm_compute. exact I. Qed.
-
-Theorem stale_refuted : exists bs, on_open bs (fun f r => match read_node_header f r with Stale => True | _ => False end) False.
-Proof. exists wit_stale. vm_compute. exact I. Qed.
-
-(* a child pointer redirected to an ancestor: the walk runs out of fuel whatever the fuel *)
-Definition cyc_f : fstate := on_open wit_cycle (fun f _ => f) (mkfile []).
-Definition cyc_root : ptr := (0, 266).
-
-Lemma cyc_gni : get_node_id LINK_FUEL cyc_f cyc_root [65] = Ok cyc_root.
-Proof. vm_compute. reflexivity. Qed.
-Lemma cyc_visit d : snd (visit cyc_f cyc_root d) = Some [(cyc_root, [65], d + 1); (cyc_root, [66], d + 1)].
-Proof. vm_compute. reflexivity. Qed.
-
-Lemma last_cons_app {A} (a : A) l1 l2 d : l2 <> [] -> last (a :: l1 ++ l2) d = last l2 d.
-Proof.
-  intros H. change (a :: l1 ++ l2) with ((a :: l1) ++ l2). generalize (a :: l1). clear a l1.
-  induction l as [|x l IH]; simpl; [reflexivity|].
-  destruct (l ++ l2) eqn:E; [apply app_eq_nil in E; destruct E; contradiction|]. rewrite <- E. apply IH.
-Qed.
-
-Lemma cyc_loop : forall n d rest, last (walk_loop n cyc_f ((cyc_root, [65], d) :: rest)) (EvD 0) = EvFuel.
-Proof.
-  induction n as [|n IH]; intros d rest; [reflexivity|].
-  cbn [walk_loop]. rewrite cyc_gni. destruct (visit cyc_f cyc_root d) as [evs k] eqn:E.
-  pose proof (cyc_visit d) as Hk. rewrite E in Hk. simpl in Hk. subst k.
-  cbn [app]. rewrite last_cons_app; [apply IH|].
-  intros Hnil. specialize (IH (d + 1) ((cyc_root, [66], d + 1) :: rest)). rewrite Hnil in IH. discriminate.
-Qed.
-
-Theorem cycle_refuted : exists bs, forall n, last (walk_events (walk n bs)) (EvD 0) = EvFuel.
-Proof.
-  exists wit_cycle. intros n. unfold walk.
-  assert (Ho : database_open wit_cycle = Ok (cyc_f, cyc_root)) by (vm_compute; reflexivity).
-  rewrite Ho. destruct (visit cyc_f cyc_root 0) as [evs k] eqn:E.
-  pose proof (cyc_visit 0) as Hk. rewrite E in Hk. simpl in Hk. subst k. cbn [walk_events].
-  pose proof (cyc_loop n 1 [(cyc_root, [66], 1)]) as HL. change (0 + 1) with 1.
-  destruct evs as [|e evs]; [exact HL|].
-  rewrite last_cons_app; [exact HL|]. intros Hnil. rewrite Hnil in HL. discriminate.
-Qed.
